@@ -44,6 +44,8 @@ type simStream struct {
 	rnd      *simk.Rand
 	maxChunk int
 	onCut    func()
+	fin       bool // the reading side closed cleanly
+	finWrites int
 }
 
 func (s *simStream) write(p []byte) (int, error) {
@@ -51,6 +53,16 @@ func (s *simStream) write(p []byte) (int, error) {
 	defer s.mu.Unlock()
 	if s.broken {
 		return 0, errors.New("sim: connection reset by peer")
+	}
+	if s.fin {
+		// the peer has closed its socket cleanly after reading everything (FIN): like TCP, the first write
+		// afterwards still succeeds locally (its bytes are answered with a reset), every later one fails
+		s.finWrites++
+		if s.finWrites == 1 {
+			return len(p), nil
+		}
+		s.broken = true
+		return 0, errors.New("sim: broken pipe")
 	}
 	n := len(p)
 	cut := false
@@ -133,7 +145,9 @@ func (c *simConn) Write(p []byte) (int, error) {
 }
 func (c *simConn) Close() error {
 	c.up.mu.Lock()
-	c.up.broken = true
+	if !c.up.fin || c.writer {
+		c.up.broken = true // (after a clean close by the reading side the writer's next write still succeeds: see write)
+	}
 	c.up.mu.Unlock()
 	c.up.once.Do(func() { close(c.up.closed) })
 	return nil
@@ -229,6 +243,18 @@ func (s *mtcpSim) body() {
 		switch op.K {
 		case "advance":
 			time.Sleep(time.Duration(op.N)*time.Millisecond + 137*time.Microsecond)
+			synctest.Wait()
+		case "peer_close":
+			// the server closes the connection after having consumed everything sent so far
+			synctest.Wait()
+			up.mu.Lock()
+			if !up.fin && !up.broken {
+				up.fin = true
+				up.once.Do(func() { close(up.closed) })
+				cutHappened, cutTime = true, time.Now()
+				s.res.Fault("peer_clean_close")
+			}
+			up.mu.Unlock()
 			synctest.Wait()
 		case "send":
 			seq++
@@ -332,6 +358,14 @@ func genMtcpCase(seed uint64, tier, focus, variant string) *simk.Case {
 	c.Cfg["cut_at"] = -1
 	if r.Bool(0.6) {
 		c.Cfg["cut_at"] = r.Range(0, total)
+	}
+	if rf := simk.NewRand(seed, "fin"); rf.Bool(0.25) {
+		// instead of a reset in mid-stream: the server closes cleanly between two operations
+		c.Cfg["cut_at"] = -1
+		at := rf.Intn(len(c.Ops) + 1)
+		ops := append([]simk.Op(nil), c.Ops[:at]...)
+		ops = append(ops, simk.Op{K: "peer_close"})
+		c.Ops = append(ops, c.Ops[at:]...)
 	}
 	return c
 }
